@@ -28,7 +28,7 @@ def cval(v):
         return "(rng %s %s)" % (cval(v[1]), cval(v[2]))
     if k == "loc":
         return "(loc %s %s)" % (V.q(v[1]), cval(v[2]))
-    if k in ("other", "none"):
+    if k in ("other", "none", "duck"):
         return "VOther"
     if k == "int":
         return "(VI (%d))" % v[1]
@@ -94,6 +94,12 @@ def gen_cases(rng, n_random):
                 continue
             for op in OPS:
                 cases.append([op, x, u]); cases.append([op, u, x])
+    # structural look-alikes of an unrelated type (same attribute names, equal values): still unrelated operands
+    for x in (rpos(), rrng(), rloc(), ["pos", 0, 0]):
+        ducks = [["duck", x]] + ([["duck", x, "lsp"]] if x[0] == "loc" else [])
+        for d in ducks:
+            for op in OPS:
+                cases.append([op, x, d]); cases.append([op, d, x])
     reprs = [["pos", 0, 0], ["pos", 2**31 - 1, 7], rrng(), rloc(), ["loc", "file:///é中", rrng()]]
     return cases, reprs
 
